@@ -213,7 +213,7 @@ func (d *MessageDef) parseFrom(p *Parser) {
 	p.token(':')
 	d.Size = p.uint()
 	d.Transmitter = p.identifier()
-	for p.peekToken().typ != scanner.EOF && p.peekKeyword() == KeywordSignal {
+	for p.peekToken().typ == scanner.Ident && p.peekKeyword() == KeywordSignal {
 		signalDef := SignalDef{}
 		signalDef.parseFrom(p)
 		d.Signals = append(d.Signals, signalDef)
